@@ -34,4 +34,14 @@ NFromBytesBE(bs) == FoldLeft(LAMBDA acc, x : acc * 256 + x, 0, bs)
 NFromBytesLE(bs) == NFromBytesBE(Reverse(bs))
 NToBytesLE(n, len) == [i \in 1 .. len |-> (n \div (256 ^ (i - 1))) % 256]
 NToBytesBE(n, len) == Reverse(NToBytesLE(n, len))
+
+(***************************************************************************)
+(* Eager let.  TLC evaluates LET definitions and operator arguments lazily *)
+(* and RE-EVALUATES them at every reference, so an expensive definition    *)
+(* referenced n times costs n evaluations (and chains of such definitions  *)
+(* multiply).  ELet(v, LAMBDA x : body) evaluates v exactly once - as the  *)
+(* element of a tuple handed to the (Java) FoldLeft - and binds the        *)
+(* resulting VALUE to x in body.  Semantically ELet(v, F) = F(v).          *)
+(***************************************************************************)
+ELet(v, F(_)) == FoldLeft(LAMBDA acc, x : F(x), 0, <<v>>)
 =============================================================================
